@@ -113,10 +113,11 @@ def prepare(body):
     return body
 
 
-def translate_fn(text, name, param_ty, helpers, checked=True):
+def translate_fn(text, name, param_ty, helpers, checked=True, arg=None):
+    """arg: an IR value to use for the parameter instead of the free variable `value` (for callers that inline the function)"""
     body = prepare(rt.fn_body(text, name))
     s = ISym(helpers, checked)
-    s.env = {"value": rx.Val(rx.var("value", TYPES[param_ty][0]), TYPES[param_ty])}
+    s.env = {"value": arg if arg is not None else rx.Val(rx.var("value", TYPES[param_ty][0]), TYPES[param_ty])}
     v = s.exec_body(rx.P(rx.tokenize("{" + body + "}")).block())
     if v is None or v.ty in (None, "never") or not isinstance(v.ty, tuple):
         raise Untranslatable(f"{name}: no result value")
